@@ -430,7 +430,7 @@ theorem removePDR_drain (s : Sess) (k : Nat) (c : Ctx) :
     split at hl
     · exact gone_after_remove_call s c Kind.pdr k l hl dp hn
     · -- the remove call, then queries only
-      have hq := diassociateAll_rq ({ s with pdrs := (alDel s.pdrs k) } : Sess) us
+      have hq := diassociateAll_rq ({ s with pdrs := (alDel s.pdrs k), q := alDel s.q k } : Sess) us
         (c.call { seid := s.localID, op := .remove, kind := .pdr, id := k }).1
       obtain ⟨l2, e2, d2⟩ := hq
       rw [e2, call_outs, List.append_assoc] at hl
